@@ -479,7 +479,7 @@ def shard(seed_value, n, steps):
 def check(run):
     quick = run.tier == 'quick'
     run.absorb(core.pool_map('vk.c04_state', 'shard', [(run.seed * 1000 + i, 700 if quick else 6000, 12) for i in range(16)]))
-    run.min_class_fraction = {'flag:repeated-text': 0.2, 'flag:module-switch': 0.1, 'flag:amend-of-derived-value': 0.02}
+    run.min_class_fraction = {'flag:repeated-text': 0.1, 'flag:module-switch': 0.1, 'flag:amend-of-derived-value': 0.008}
 
 
 def replay(case):
